@@ -5,10 +5,10 @@
    repair of its class is switched on. *)
 From V Require Import CF.Soundness CF.SemDecide CF.SemDecideProofs CF.Oracle.
 
-Definition only_A := {| fixA := true; fixB := false; fixC := false; fixD := false |}.
-Definition only_B := {| fixA := false; fixB := true; fixC := false; fixD := false |}.
-Definition only_C := {| fixA := false; fixB := false; fixC := true; fixD := false |}.
-Definition only_D := {| fixA := false; fixB := false; fixC := false; fixD := true |}.
+Definition only_A := {| fixA := true; fixB := false; fixC := false; fixD := false; fixE := false |}.
+Definition only_B := {| fixA := false; fixB := true; fixC := false; fixD := false; fixE := false |}.
+Definition only_C := {| fixA := false; fixB := false; fixC := true; fixD := false; fixE := false |}.
+Definition only_D := {| fixA := false; fixB := false; fixC := false; fixD := true; fixE := false |}.
 
 (* function f() { do try { throw 1; } finally { continue; } while (v2); v1; } *)
 Definition wA_c10 : program :=
